@@ -26,7 +26,7 @@ ASSUME = [
 def check(ctx):
     # body of CertAuth::process_child_revoke_key regenerated from certauth.rs; C03Src: = the model's decision
     return objlib.run(ctx, QUICK, THOROUGH, RULE, ASSUME,
-                      translate=[("pure_fns:C03", "PureFns.lean")], extra_modules=["KrillModel.Props.C03Src"])
+                      translate=[("pure_fns:C03", "PureFnsC03.lean")], extra_modules=["KrillModel.Props.C03Src"])
 
 
 def replay(ctx, data):
